@@ -159,6 +159,15 @@ CHECKS = {
             "Trusted: the table in checks/c15.py; hooks H2/H3 (virtual clock, work counters). Work inside module "
             "functions and string verification is not counted.",
             "DESIGN.md section 2, C15"),
+    "C18": ("exploration",
+            "black-box differential on parsed CLI output records across thread counts / schedules / rule forms, plus an offline checker over the recorded queue event log (exactly-once, conservation, bounded queue)",
+            "The real yara and yarac binaries are run on generated directory trees with random option sets: per-file "
+            "single-threaded invocations, -p 1, and -p 2..32 under injected scheduling jitter and CPU pinning must print "
+            "the same multiset of intact records; compiled rules with externals given at either stage must print the "
+            "same; exit status must match the presence of an error message; the H4 event log proves every enqueued "
+            "path was dequeued and scanned exactly once and the queue never held more than 64 entries.",
+            "Trusted: the record parser; hook H4 (cli/yara.c) logs under the queue mutex. Schedules are sampled, not enumerated.",
+            "DESIGN.md section 2, C18"),
 }
 
 NOT_YET = "check not built yet in this round (planned in DESIGN.md section 2); nothing is claimed for it"
